@@ -10,7 +10,7 @@ import rx
 import rxsci.container.csv as rscsv
 
 from .. import spaces
-from ..bytelevel import RawSink, Device
+from ..bytelevel import RawSink, Device, twice
 from ..engine import fast_hash
 
 ID = 'C18'
@@ -99,11 +99,11 @@ def roundtrip(rows, types, sep=',', esc='\\'):
         parser = rscsv.create_line_parser(dtype=TypedRow, separator=sep, escapechar=esc)
     else:
         parser = rscsv.create_line_parser(dtype=[(n, t) for n, t in zip(names, types)], separator=sep, escapechar=esc)
-    sink.subscribe_to(rx.from_([Row(*r) for r in rows]).pipe(
+    sink = twice(rx.from_([Row(*r) for r in rows]).pipe(
         rscsv.dump(separator=sep, escapechar=esc),
         rx.operators.map(lambda l: l[:-1] if l.endswith('\n') else l),
         rscsv.load(parser),
-    ))
+    ), len(rows), limit=2)       # one- and two-row inputs are subscribed a second time (header and parser state are per subscription)
     return [tuple(r) for r in sink.items], sink.error, sink.completed
 
 
